@@ -1,144 +1,31 @@
 (* Proofs/SxgRoundtripVerify.v - C02, the Verify half, part 1: the verdict of
    Exchange.Verify is the same on an exchange and on what a reader hands back
-   after Write / ReadExchange (canon_exchange).
+   after Write / ReadExchange (canon_exchange) - for EVERY exchange, no side
+   condition.
 
    Verify looks at the exchange through
      (a) the signed message (header CBOR: order- and case-independent),
-     (b) Header.Get-style lookups of four names in the RESPONSE map
-         (Content-Type, Cache-Control, Expires for b3; the digest header),
+     (b) headerValue lookups of four names in the RESPONSE map (Content-Type,
+         Cache-Control, Expires for b3; the digest header), which since the
+         repair of F19 are case-insensitive in the map key (hdr_value_ci),
      (c) the header names, lower-cased, against the banned lists,
      (d) uri, method, status, payload, Signature header (untouched by canon).
-   (b) is where an http.Header differs from the wire: the lookup is an exact
-   match of the canonical spelling against the MAP KEY.  A map holding the
-   key "content-type" (set by direct map assignment, not by Add/Set) has no
-   Content-Type for Verify, but it is signed, written and read back as
-   "Content-Type".  Hence the one side condition [lookup_stable]: an entry
-   whose name is, ignoring case, one of the names Verify looks up is spelled
-   canonically.  Nothing else is needed: no token names, no distinctness, no
-   taint condition (if the names are not distinct after lower-casing nothing
-   can be signed and both verdicts are the same failure). *)
+   For (b): when the names of the response map are distinct up to letter case,
+   hdr_value_ci h k = hdr_value_ci (canon_headers h) k  (hdr_value_ci_canon);
+   when they are not, the header block cannot be encoded, no signature can
+   verify, and the lookups are never consulted: both verdicts are the same
+   failure.  (Before the repair the lookup matched the map key exactly and the
+   theorem needed a side condition, "lookup_stable", with witnesses low_ct /
+   low_cc that it was needed; see SxgRoundtripVerifyEx.v for what they do now.) *)
 From Coq Require Import Lia ZifyN ZifyNat ZifyBool Permutation.
 From WP Require Import Base.Prelude Base.Decimal.
 From WP Require Import Model.Cbor Model.BigEndian Model.Http Model.Url Model.Mice Model.StructHdr Model.CertChain
                        Model.Sxg.
-From WP Require Import Proofs.BaseLemmas Proofs.CborMap Proofs.SxgCanon Proofs.SxgLoop
+From WP Require Import Proofs.BaseLemmas Proofs.HdrCi Proofs.CborMap Proofs.SxgCanon Proofs.SxgLoop
                        Proofs.SxgReadDefs Proofs.SxgRoundtrip.
 Open Scope N_scope.
 
-(* ---- the side condition ------------------------------------------------------------ *)
-(* every entry named k up to letter case has exactly the key Header.Get(k) uses *)
-Definition key_stable (h : headers) (k : bytes) : bool :=
-  forallb (fun nv => implb (bytes_eqb (lower (fst nv)) (lower k))
-                           (bytes_eqb (fst nv) (canonical_key k))) h.
-
-(* the names Verify looks up in the response headers of a version-v exchange *)
-Definition looked_up (v : version) : list bytes :=
-  digest_header_name (mice_of v)
-  :: (if has_request v then [] else [s2b "Content-Type"; s2b "Cache-Control"; s2b "Expires"]).
-
-Definition lookup_stable (e : exchange) : bool :=
-  forallb (key_stable (e_resph e)) (looked_up (e_ver e)).
-
-(* the usual sufficient condition: the map was built with Header.Add / Set,
-   i.e. every key is its own canonical form *)
-Definition canonical_keys (h : headers) : bool :=
-  forallb (fun nv => bytes_eqb (canonical_key (fst nv)) (fst nv)) h.
-
-(* ---- canonical keys and letter case -------------------------------------------------- *)
-Lemma lower_byte_dash (c : N) : (lower_byte c =? 45) = (c =? 45).
-Proof. unfold lower_byte. destruct ((65 <=? c) && (c <=? 90)) eqn:E; [|reflexivity]. lia. Qed.
-
-Lemma canon_go_lower (s : bytes) : forall u, canon_go (lower s) u = canon_go s u.
-Proof.
-  induction s as [|c r IH]; intros u; [reflexivity|].
-  cbn [lower map canon_go]. fold (lower r). rewrite IH, lower_byte_dash. f_equal.
-  unfold lower_byte, is_lower_b, is_upper_b.
-  destruct u; cbn [andb negb];
-    repeat match goal with |- context [if ?b then _ else _] => destruct b eqn:? end; lia.
-Qed.
-
-Lemma is_tchar_lower_eq (c : N) : is_tchar (lower_byte c) = is_tchar c.
-Proof.
-  unfold lower_byte. destruct ((65 <=? c) && (c <=? 90)) eqn:E; [|reflexivity].
-  unfold is_tchar, is_digit_b, is_lower_b, is_upper_b. cbn [existsb].
-  replace ((65 <=? c) && (c <=? 90)) with true.
-  replace ((97 <=? c + 32) && (c + 32 <=? 122)) with true by lia.
-  rewrite !orb_true_r. reflexivity.
-Qed.
-
-Lemma tchar_lower_eq (s : bytes) : forallb is_tchar (lower s) = forallb is_tchar s.
-Proof.
-  induction s as [|c r IH]; [reflexivity|]. cbn [lower map forallb]. fold (lower r).
-  rewrite IH, is_tchar_lower_eq. reflexivity.
-Qed.
-
-(* for a token, the canonical key depends on the name up to letter case only *)
-Lemma canonical_key_lower (s : bytes) :
-  forallb is_tchar s = true -> canonical_key (lower s) = canonical_key s.
-Proof.
-  intros Hs. unfold canonical_key. rewrite tchar_lower_eq, Hs. apply canon_go_lower.
-Qed.
-
-Lemma canonical_keys_stable (h : headers) (k : bytes) :
-  forallb is_tchar k = true -> canonical_keys h = true -> key_stable h k = true.
-Proof.
-  intros Hk Hc. unfold key_stable, canonical_keys in *. apply forallb_forall. intros [n vs] Hin.
-  rewrite forallb_forall in Hc. specialize (Hc _ Hin). cbn [fst] in *.
-  destruct (bytes_eqb (lower n) (lower k)) eqn:E; [cbn [implb]|reflexivity].
-  apply bytes_eqb_eq in E. apply bytes_eqb_eq in Hc. apply bytes_eqb_eq.
-  assert (Hn : forallb is_tchar n = true) by (rewrite <- tchar_lower_eq, E, tchar_lower_eq; exact Hk).
-  rewrite <- Hc, <- (canonical_key_lower n Hn), E. apply canonical_key_lower. exact Hk.
-Qed.
-
-Lemma looked_up_tokens (v : version) : forallb (forallb is_tchar) (looked_up v) = true.
-Proof. destruct v; reflexivity. Qed.
-
-Theorem canonical_keys_lookup_stable (e : exchange) :
-  canonical_keys (e_resph e) = true -> lookup_stable e = true.
-Proof.
-  intros Hc. unfold lookup_stable. apply forallb_forall. intros k Hk.
-  apply canonical_keys_stable; [|exact Hc].
-  pose proof (looked_up_tokens (e_ver e)) as Ht. rewrite forallb_forall in Ht. exact (Ht k Hk).
-Qed.
-
-(* ---- association-list lookup ------------------------------------------------------------ *)
-Lemma lookup_notin (h : headers) (k : bytes) : ~ In k (map fst h) -> hdr_lookup h k = [].
-Proof.
-  induction h as [|[k' vs] t IH]; intros Hn; cbn [hdr_lookup]; [reflexivity|].
-  cbn [map fst] in Hn. destruct (bytes_eqb k' k) eqn:E.
-  - apply bytes_eqb_eq in E. subst k'. exfalso. apply Hn. left. reflexivity.
-  - apply IH. intros Hin. apply Hn. right. exact Hin.
-Qed.
-
-Lemma lookup_in (h : headers) (k : bytes) (vs : list bytes) :
-  NoDup (map fst h) -> In (k, vs) h -> hdr_lookup h k = vs.
-Proof.
-  induction h as [|[k' vs'] t IH]; intros Hnd Hin; [destruct Hin|].
-  cbn [map fst] in Hnd. inversion Hnd as [|? ? Hni Hnd']; subst. cbn [hdr_lookup].
-  destruct Hin as [E|Hin].
-  - injection E as -> ->. rewrite bytes_eqb_refl. reflexivity.
-  - destruct (bytes_eqb k' k) eqn:E; [|apply IH; assumption].
-    apply bytes_eqb_eq in E. subst k'. exfalso. apply Hni.
-    change k with (fst (k, vs)). apply in_map. exact Hin.
-Qed.
-
-Lemma nodup_names (h : headers) :
-  NoDup (map (fun nv => lower (fst nv)) h) -> NoDup (map fst h).
-Proof.
-  intros Hn. apply (NoDup_map_via (fun nv : bytes * list bytes => lower (fst nv)) fst h Hn).
-  intros x y E. rewrite E. reflexivity.
-Qed.
-
-Lemma nodup_canon_names (h : headers) :
-  NoDup (map (fun nv => lower (fst nv)) h) -> NoDup (map fst (canon_headers h)).
-Proof.
-  intros Hn. unfold canon_headers. rewrite map_map.
-  eapply Permutation_NoDup; [apply Permutation_map, Permutation_sym, isort_perm|].
-  apply (NoDup_map_via (fun nv : bytes * list bytes => lower (fst nv))); [exact Hn|].
-  intros [n vs] [n' vs'] E. cbn [canon_field fst] in *.
-  apply (f_equal lower) in E. rewrite !lower_canonical_key, !lower_idem in E. exact E.
-Qed.
-
+(* ---- the canonical map ------------------------------------------------------------------ *)
 Lemma in_canon_headers (h : headers) (nv : bytes * list bytes) :
   In nv (canon_headers h) <-> exists nv0, In nv0 h /\ nv = canon_field nv0.
 Proof.
@@ -149,76 +36,35 @@ Proof.
     eapply Permutation_in; [apply Permutation_sym, isort_perm|exact Hin].
 Qed.
 
-Lemma bytes_in_dec (k : bytes) (l : list bytes) : {In k l} + {~ In k l}.
-Proof. apply in_dec. apply list_eq_dec. apply N.eq_dec. Qed.
+Lemma lname_canon_field (nv : bytes * list bytes) : lname (canon_field nv) = lname nv.
+Proof. unfold lname, canon_field. cbn [fst]. rewrite lower_canonical_key, lower_idem. reflexivity. Qed.
 
-(* ---- Header.Get / headerValue on the canonical map -------------------------------------- *)
-(* the lookup of a canonical key in the canonical map: the joined value, once *)
-Lemma lookup_canon_headers (h : headers) (ck : bytes) :
-  NoDup (map (fun nv => lower (fst nv)) h) ->
-  canonical_key (lower ck) = ck ->
-  (forall nv, In nv h -> lower (fst nv) = lower ck -> fst nv = ck) ->
-  hdr_lookup (canon_headers h) ck
-  = if bytes_in_dec ck (map fst h) then [join_comma (hdr_lookup h ck)] else [].
+(* the names, up to letter case, are the same set *)
+Lemma lnames_canon (h : headers) : Permutation (map lname (canon_headers h)) (map lname h).
 Proof.
-  intros Hnd Hck Hst. destruct (bytes_in_dec ck (map fst h)) as [Hin|Hni].
-  - apply in_map_iff in Hin. destruct Hin as [[n vs] [E Hin]]. cbn [fst] in E. subst n.
-    rewrite (lookup_in h ck vs (nodup_names h Hnd) Hin).
-    apply lookup_in; [apply nodup_canon_names; exact Hnd|].
-    apply in_canon_headers. exists (ck, vs). split; [exact Hin|].
-    unfold canon_field. cbn [fst snd]. rewrite Hck. reflexivity.
-  - apply lookup_notin. intros Hin. apply in_map_iff in Hin. destruct Hin as [nv [E Hin]].
-    apply in_canon_headers in Hin. destruct Hin as [[n vs] [Hin0 Env]]. subst nv.
-    cbn [canon_field fst] in E.
-    assert (El : lower n = lower ck).
-    { apply (f_equal lower) in E. rewrite lower_canonical_key, lower_idem in E. exact E. }
-    specialize (Hst (n, vs) Hin0 El). cbn [fst] in Hst. subst n.
-    apply Hni. change ck with (fst (ck, vs)). apply in_map. exact Hin0.
+  unfold canon_headers. rewrite map_map.
+  eapply perm_trans; [|apply Permutation_map, isort_perm].
+  erewrite map_ext; [apply Permutation_refl|]. exact lname_canon_field.
 Qed.
 
-Lemma key_stable_inv (h : headers) (k : bytes) : key_stable h k = true ->
-  forall nv, In nv h -> lower (fst nv) = lower (canonical_key k) -> fst nv = canonical_key k.
-Proof.
-  intros Hs nv Hin E. unfold key_stable in Hs. rewrite forallb_forall in Hs. specialize (Hs nv Hin).
-  rewrite lower_canonical_key in E. rewrite E, bytes_eqb_refl in Hs. cbn [implb] in Hs.
-  apply bytes_eqb_eq. exact Hs.
-Qed.
+Lemma nodup_canon_lnames (h : headers) :
+  NoDup (map lname h) -> NoDup (map lname (canon_headers h)).
+Proof. intros Hn. eapply Permutation_NoDup; [apply Permutation_sym, lnames_canon|exact Hn]. Qed.
 
-(* headerValue (the comma-joined list) is the same before and after *)
-Theorem hdr_value_canon (h : headers) (k : bytes) :
-  NoDup (map (fun nv => lower (fst nv)) h) ->
-  canonical_key (lower (canonical_key k)) = canonical_key k ->
-  key_stable h k = true ->
-  hdr_value (canon_headers h) k = hdr_value h k.
+(* ---- (b) headerValue is the same before and after ------------------------------------------- *)
+Theorem hdr_value_ci_canon (h : headers) (k : bytes) :
+  NoDup (map lname h) -> hdr_value_ci (canon_headers h) k = hdr_value_ci h k.
 Proof.
-  intros Hnd Hck Hs. unfold hdr_value, hdr_values.
-  rewrite (lookup_canon_headers h (canonical_key k) Hnd Hck (key_stable_inv h k Hs)).
-  destruct (bytes_in_dec (canonical_key k) (map fst h)) as [Hin|Hni].
-  - reflexivity.
-  - rewrite (lookup_notin h _ Hni). reflexivity.
-Qed.
-
-(* every token name qualifies *)
-Lemma canon_go_idem (s : bytes) : forall u, canon_go (canon_go s u) u = canon_go s u.
-Proof.
-  induction s as [|c r IH]; intros u; [reflexivity|]. cbn [canon_go].
-  assert (Ed : forall c', c' = (if u && is_lower_b c then c - 32
-                               else if negb u && is_upper_b c then c + 32 else c) ->
-               (c' =? 45) = (c =? 45) /\
-               (if u && is_lower_b c' then c' - 32
-                else if negb u && is_upper_b c' then c' + 32 else c') = c').
-  { intros c' ->. unfold is_lower_b, is_upper_b.
-    destruct u; cbn [andb negb];
-      repeat match goal with |- context [if ?b then _ else _] => destruct b eqn:? end; lia. }
-  destruct (Ed _ eq_refl) as [E1 E2]. rewrite E1, E2, IH. reflexivity.
-Qed.
-
-Lemma canonical_key_token_fix (k : bytes) :
-  forallb is_tchar k = true -> canonical_key (lower (canonical_key k)) = canonical_key k.
-Proof.
-  intros Hk. unfold canonical_key at 2 3. rewrite Hk.
-  pose proof (canon_go_tchar k true Hk) as Hc.
-  rewrite (canonical_key_lower _ Hc). unfold canonical_key. rewrite Hc. apply canon_go_idem.
+  intros Hnd. destruct (bytes_in_dec' (lower k) (map lname h)) as [Hin|Hni].
+  - apply in_map_iff in Hin. destruct Hin as [[n vs] [E Hin]]. unfold lname in E. cbn [fst] in E.
+    rewrite (hdr_value_ci_unique h k n vs Hnd Hin E).
+    rewrite (hdr_value_ci_unique (canon_headers h) k (canonical_key (lower n)) [join_comma vs]
+               (nodup_canon_lnames h Hnd)).
+    + reflexivity.
+    + apply in_canon_headers. exists (n, vs). split; [exact Hin|reflexivity].
+    + rewrite lower_canonical_key, lower_idem. exact E.
+  - rewrite (hdr_value_ci_none h k Hni). apply hdr_value_ci_none.
+    intros Hin. apply Hni. eapply Permutation_in; [apply lnames_canon|exact Hin].
 Qed.
 
 (* ---- (a) the signed header block --------------------------------------------------------- *)
@@ -254,7 +100,7 @@ Qed.
 
 (* what can be signed has response names distinct up to letter case *)
 Lemma encode_headers_ok_nodup (e : exchange) (hdr : bytes) :
-  encode_exchange_headers e = Ok hdr -> NoDup (map (fun nv => lower (fst nv)) (e_resph e)).
+  encode_exchange_headers e = Ok hdr -> NoDup (map lname (e_resph e)).
 Proof.
   intros H. destruct (encode_headers_inv e hdr H) as (rs & Ers & _).
   rewrite encode_response_map_pairs in Ers.
@@ -263,30 +109,6 @@ Proof.
 Qed.
 
 (* ---- (c) the banned lists ----------------------------------------------------------------- *)
-Lemma existsb_perm {A} (p : A -> bool) (l l' : list A) :
-  Permutation l l' -> existsb p l = existsb p l'.
-Proof.
-  induction 1 as [|x l l' _ IH|x y l|l l' l'' _ IH1 _ IH2]; cbn [existsb].
-  - reflexivity.
-  - rewrite IH. reflexivity.
-  - destruct (p x), (p y); reflexivity.
-  - congruence.
-Qed.
-
-Lemma existsb_map {A B} (p : B -> bool) (f : A -> B) (l : list A) :
-  existsb p (map f l) = existsb (fun a => p (f a)) l.
-Proof. induction l as [|x t IH]; [reflexivity|]. cbn [map existsb]. rewrite IH. reflexivity. Qed.
-
-Lemma existsb_names_canon (p : bytes -> bool) (h : headers) :
-  (forall n, p (canonical_key (lower n)) = p n) ->
-  existsb (fun nv => p (fst nv)) (canon_headers h) = existsb (fun nv => p (fst nv)) h.
-Proof.
-  intros Hp. unfold canon_headers. rewrite existsb_map.
-  rewrite (existsb_perm _ _ _ (isort_perm lt_name h)).
-  induction h as [|[n vs] t IH]; [reflexivity|]. cbn [existsb]. rewrite IH. f_equal.
-  exact (Hp n).
-Qed.
-
 Lemma verify_headers_canon (e : exchange) : verify_headers (canon_exchange e) = verify_headers e.
 Proof.
   unfold verify_headers. cbn [canon_exchange e_reqh e_resph].
@@ -295,25 +117,6 @@ Proof.
   - intros n. unfold is_uncached_header. rewrite lower_canonical_key, lower_idem. reflexivity.
   - intros n. unfold is_stateful_request_header. rewrite lower_canonical_key, lower_idem. reflexivity.
 Qed.
-
-(* ---- (b) the lookups ------------------------------------------------------------------------ *)
-Lemma lookup_stable_digest (e : exchange) : lookup_stable e = true ->
-  key_stable (e_resph e) (digest_header_name (mice_of (e_ver e))) = true.
-Proof. unfold lookup_stable, looked_up. cbn [forallb]. intros H. apply andb_true_iff in H. tauto. Qed.
-
-Lemma lookup_stable_b3 (e : exchange) : lookup_stable e = true -> has_request (e_ver e) = false ->
-  key_stable (e_resph e) (s2b "Content-Type") = true /\
-  key_stable (e_resph e) (s2b "Cache-Control") = true /\
-  key_stable (e_resph e) (s2b "Expires") = true.
-Proof.
-  unfold lookup_stable, looked_up. intros H Hr. rewrite Hr in H. cbn [forallb] in H.
-  rewrite !andb_true_iff in H. tauto.
-Qed.
-
-Lemma digest_name_fix (v : version) :
-  canonical_key (lower (canonical_key (digest_header_name (mice_of v))))
-  = canonical_key (digest_header_name (mice_of v)).
-Proof. destruct v; reflexivity. Qed.
 
 Section Invariant.
   Variable H256 : bytes -> bytes.
@@ -327,28 +130,24 @@ Section Invariant.
   Notation vfy := (verify H256 x509_key sig_ok status_known fetch).
 
   Lemma verify_payload_canon (e : exchange) (s : signature) :
-    NoDup (map (fun nv => lower (fst nv)) (e_resph e)) -> lookup_stable e = true ->
+    NoDup (map lname (e_resph e)) ->
     verify_payload H256 (canon_exchange e) s = verify_payload H256 e s.
   Proof.
-    intros Hnd Hs. unfold verify_payload. cbn [canon_exchange e_ver e_resph e_payload].
-    rewrite (hdr_value_canon _ _ Hnd (digest_name_fix (e_ver e)) (lookup_stable_digest e Hs)).
-    reflexivity.
+    intros Hnd. unfold verify_payload. cbn [canon_exchange e_ver e_resph e_payload].
+    rewrite (hdr_value_ci_canon _ _ Hnd). reflexivity.
   Qed.
 
   Lemma is_cacheable_canon (e : exchange) :
-    NoDup (map (fun nv => lower (fst nv)) (e_resph e)) -> lookup_stable e = true ->
-    has_request (e_ver e) = false ->
+    NoDup (map lname (e_resph e)) ->
     is_cacheable status_known (canon_exchange e) = is_cacheable status_known e.
   Proof.
-    intros Hnd Hs Hr. destruct (lookup_stable_b3 e Hs Hr) as (_ & Hcc & Hex).
-    unfold is_cacheable. cbn [canon_exchange e_status e_resph].
-    rewrite (hdr_value_canon _ (s2b "Cache-Control") Hnd eq_refl Hcc).
-    rewrite (hdr_value_canon _ (s2b "Expires") Hnd eq_refl Hex). reflexivity.
+    intros Hnd. unfold is_cacheable. cbn [canon_exchange e_status e_resph].
+    rewrite !(hdr_value_ci_canon _ _ Hnd). reflexivity.
   Qed.
 
   (* a signature that verifies means the header block could be encoded *)
   Lemma vsig_some_nodup (e : exchange) (tsec tnsec : Z) (s : signature) (p : bytes) :
-    vsig e tsec tnsec s = Some p -> NoDup (map (fun nv => lower (fst nv)) (e_resph e)).
+    vsig e tsec tnsec s = Some p -> NoDup (map lname (e_resph e)).
   Proof.
     unfold verify_signature. intros H.
     destruct (fetch (s_cert_url s)) as [cb| | |]; try discriminate H.
@@ -361,10 +160,9 @@ Section Invariant.
   Qed.
 
   Lemma verify_signature_canon (e : exchange) (tsec tnsec : Z) (s : signature) :
-    lookup_stable e = true ->
     vsig (canon_exchange e) tsec tnsec s = vsig e tsec tnsec s.
   Proof.
-    intros Hs. unfold verify_signature.
+    unfold verify_signature.
     destruct (fetch (s_cert_url s)) as [cb| | |]; try reflexivity.
     destruct (cc_read _ cb) as [[|main rest]| | |]; try reflexivity.
     destruct (x509_key (ac_cert main)) as [[kid|]|]; try reflexivity.
@@ -373,74 +171,45 @@ Section Invariant.
     destruct (signed_message e _ _ _ _) as [msg| | |] eqn:Em; try reflexivity.
     destruct (signed_message_ok_headers _ _ _ _ _ _ Em) as [hdr Eh].
     pose proof (encode_headers_ok_nodup e hdr Eh) as Hnd.
-    rewrite (verify_payload_canon e s Hnd Hs).
+    rewrite (verify_payload_canon e s Hnd).
     change (e_ver (canon_exchange e)) with (e_ver e).
     change (e_resph (canon_exchange e)) with (canon_headers (e_resph e)).
-    destruct (has_request (e_ver e)) eqn:Er; [reflexivity|].
-    destruct (lookup_stable_b3 e Hs Er) as (Hct & _ & _).
-    rewrite (hdr_value_canon _ (s2b "Content-Type") Hnd eq_refl Hct). reflexivity.
+    rewrite (hdr_value_ci_canon _ (s2b "Content-Type") Hnd). reflexivity.
   Qed.
 
-  Lemma verify_sigs_canon (e : exchange) (tsec tnsec : Z) : lookup_stable e = true ->
+  Lemma verify_sigs_canon (e : exchange) (tsec tnsec : Z) :
     forall sigs t, vsigs (canon_exchange e) tsec tnsec sigs t = vsigs e tsec tnsec sigs t.
   Proof.
-    intros Hs. induction sigs as [|pi rest IH]; intros t; [reflexivity|].
+    induction sigs as [|pi rest IH]; intros t; [reflexivity|].
     cbn [verify_sigs]. cbv zeta. destruct (extract_signature pi) as [s|]; [|apply IH].
     change (e_uri (canon_exchange e)) with (e_uri e).
     change (e_ver (canon_exchange e)) with (e_ver e).
     change (e_method (canon_exchange e)) with (e_method e).
-    rewrite verify_signature_canon by exact Hs. rewrite verify_headers_canon.
+    rewrite verify_signature_canon. rewrite verify_headers_canon.
     destruct (same_origin (s_validity s) (e_uri e)) as [[[|]|]|]; rewrite ?IH; try reflexivity;
       (destruct (vsig e tsec tnsec s) as [p|] eqn:Ev; [|reflexivity]);
       pose proof (vsig_some_nodup _ _ _ _ _ Ev) as Hnd;
-      (destruct (has_request (e_ver e)) eqn:Er;
-       [reflexivity|rewrite (is_cacheable_canon e Hnd Hs Er); reflexivity]).
+      rewrite (is_cacheable_canon e Hnd); reflexivity.
   Qed.
 
-  (* C02: the verdict is the same on the exchange and on its canonical (read back) form *)
+  (* C02: the verdict is the same on the exchange and on its canonical (read back)
+     form: every exchange, every instant, every oracle *)
   Theorem verify_canon_invariant (e : exchange) (tsec tnsec : Z) :
-    lookup_stable e = true ->
     vfy (canon_exchange e) tsec tnsec = vfy e tsec tnsec.
   Proof.
-    intros Hs. unfold verify. change (e_sig (canon_exchange e)) with (e_sig e).
+    unfold verify. change (e_sig (canon_exchange e)) with (e_sig e).
     change (e_taint (canon_exchange e)) with (e_taint e).
     destruct (parse_parameterised_list (e_sig e)); try reflexivity.
-    apply verify_sigs_canon. exact Hs.
+    apply verify_sigs_canon.
   Qed.
-
-  Corollary verify_canon_invariant_canonical (e : exchange) (tsec tnsec : Z) :
-    canonical_keys (e_resph e) = true ->
-    vfy (canon_exchange e) tsec tnsec = vfy e tsec tnsec.
-  Proof. intros Hc. apply verify_canon_invariant, canonical_keys_lookup_stable, Hc. Qed.
 
   (* ... hence before and after Write / ReadExchange *)
   Theorem verdict_same_after_roundtrip (e : exchange) (bs : bytes) :
-    readable e = true -> write e = Ok bs -> lookup_stable e = true ->
+    readable e = true -> write e = Ok bs ->
     exists e', read bs = Ok e' /\
       forall tsec tnsec, vfy e' tsec tnsec = vfy e tsec tnsec.
   Proof.
-    intros Hr Hw Hs. exists (canon_exchange e). split; [apply write_read; assumption|].
-    intros tsec tnsec. apply verify_canon_invariant. exact Hs.
-  Qed.
-
-  (* a second generation changes nothing any more: the reader's result is stable *)
-  Lemma canon_headers_canonical (h : headers) :
-    headers_ok h = true -> canonical_keys (canon_headers h) = true.
-  Proof.
-    intros Hok. pose proof (headers_ok_inv h Hok) as Hn. unfold canonical_keys.
-    apply forallb_forall. intros nv Hin. apply in_canon_headers in Hin.
-    destruct Hin as [[n vs] [Hin ->]]. cbn [canon_field fst]. apply bytes_eqb_eq.
-    rewrite Forall_forall in Hn. specialize (Hn _ Hin). cbn [fst] in Hn. unfold name_ok in Hn.
-    pose proof (name_lower_tchar n Hn) as Hl.
-    unfold canonical_key at 2 3. rewrite Hl.
-    pose proof (canon_go_tchar (lower n) true Hl) as Hc.
-    unfold canonical_key. rewrite Hc. apply canon_go_idem.
-  Qed.
-
-  Theorem read_back_lookup_stable (e : exchange) :
-    readable e = true -> lookup_stable (canon_exchange e) = true.
-  Proof.
-    intros Hr. apply canonical_keys_lookup_stable. cbn [canon_exchange e_resph].
-    apply canon_headers_canonical. destruct (readable_inv e Hr) as (_ & Hs & _). exact Hs.
+    intros Hr Hw. exists (canon_exchange e). split; [apply write_read; assumption|].
+    intros tsec tnsec. apply verify_canon_invariant.
   Qed.
 End Invariant.
